@@ -862,6 +862,7 @@ package ro
 //@   iteration ensures count(chselect) == 1 && count(chpoll) == 0 && count(chrecv.ANY) == 0 && count(destination.NextWithContext) <= 1 && before(chselect, destination.NextWithContext)
 //@   iteration ensures called(destination.NextWithContext) ==> arg(destination.NextWithContext, 0) == ctx && arg(destination.NextWithContext, 1) == value
 //@   iteration ensures count(ctx.Done) == 1 && watches(chselect, done) && watches(chselect, res(ctx.Done))
+//@   iteration ensures !chosen(chselect, done) && !chosen(chselect, res(ctx.Done))
 
 // ---------------------------------------------------------------------------
 // second batch: remaining single-source operators
@@ -1357,6 +1358,7 @@ package ro
 //@   iteration ensures count(chselect) == 1 && count(chpoll) == 0 && count(chrecv.ANY) == 0 && count(destination.NextWithContext) <= 1 && before(chselect, destination.NextWithContext)
 //@   iteration ensures called(destination.NextWithContext) ==> arg(destination.NextWithContext, 0) == ctx && arg(destination.NextWithContext, 1) == value - 1
 //@   iteration ensures count(ctx.Done) == 1 && watches(chselect, done) && watches(chselect, res(ctx.Done))
+//@   iteration ensures !chosen(chselect, done) && !chosen(chselect, res(ctx.Done))
 //@   iteration ensures chosen(chselect, timer.C) && initial == 0 ==> count(destination.NextWithContext) == 0
 
 // math lifts: each value is replaced by what the standard function returns for it (floating point itself is not reasoned about)
